@@ -14,7 +14,7 @@ CHECKS.update({
  "C02": dict(engine="E1 seq", cat="model_checking", ref="6 C02",
    technique="exhaustive enumeration of run timings (durations, strategy answers, overshoot) on a virtual monotonic clock, wall-clock jumps as deviations; spec monitor + differential steady-vs-jumping wall clock",
    text="For deadlines of 2-4 ticks every combination of attempt outcome, duration, strategy answer and sleeper overshoot up to max_attempts=3 is run on the real loops; the monitor checks on the owned monotonic timeline that no attempt begins after the deadline, no requested sleep exceeds the remaining time, total sleep <= deadline and late failures are not retried; wall-clock reads may jump by +/-1e9 s and the run must not change.",
-   note="tick resolution 0.125 s (library rounds to microseconds); sleeper overshoot >= 0; attempt_timeout_s modelled (owned executor / virtual loop); one off-lattice deadline (0.3754 s, also through from_config); time may also pass inside a strategy object's record_failure(); other callbacks take no time in this property"),
+   note="tick resolution 0.125 s (library rounds to microseconds); sleeper overshoot >= 0; attempt_timeout_s modelled (owned executor / virtual loop); one off-lattice deadline (0.3754 s, also through from_config); time may also pass inside a strategy object's record_failure(); other callbacks take no time in this property; interrupted sleepers; deadlines of an hour with gaps above ten minutes; every failure class with the top draw"),
  "C03": dict(engine="E1 seq", cat="model_checking", ref="6 C03",
    technique="exhaustive outcome sequences x deviation-bounded environment answers on the real retry loop; monitor recomputes the set of holding stop conditions from the observed history",
    text="Configuration lattice (caps, strategy tables, deadline, budget fill) x all outcome sequences x abort polls, handler decisions, durations and overshoot as bounded deviations; at every failed attempt the monitor derives which stop conditions hold and requires: no retry event/token/handler/sleep when one holds, a further attempt when none can hold, and a reported stop reason that is one of the holding conditions.",
@@ -39,11 +39,11 @@ CHECKS.update({
  "C09": dict(engine="E1 seq", cat="model_checking", ref="6 C09",
    technique="exhaustive outcome sequences x deviation-bounded stop reasons x call sequences on a logging subclass of the real CircuitBreaker; per-call record oracle",
    text="Policy/AsyncPolicy call/execute with and without retry: for every outcome sequence and stop reason and for sequences of calls sharing one breaker, each admitted call must make exactly one record after its last invocation: success iff a value was delivered, failure(K) with the final failure's class iff retries stopped on a failure or deferral, cancel iff aborted/cancelled; rejected calls none.",
-   note="unclassified endings accept any single record; pre-flight abort of a retry-less policy is judged under C07; re-entrant calls through the same Policy from inside callbacks"),
+   note="unclassified endings accept any single record; pre-flight abort of a retry-less policy is judged under C07; re-entrant calls through the same Policy from inside callbacks; hooks raising cancellation-type exceptions at every breaker event of the call (F14); callbacks raising late; an exception instance travelling between policies"),
  "C13": dict(engine="E1 seq + E3 coro", cat="model_checking", ref="6 C13",
    technique="exhaustive abort-poll vectors x outcome sequences x cancellation-type exceptions from operation and sleeper; cancellation injected at every coroutine suspension point; structural trace oracle",
    text="Every first-True poll index, every attempt or sleep at which KeyboardInterrupt/SystemExit/CancelledError is raised, and every await point at which an async run is cancelled or closed: a poll must precede every attempt and every sleep, nothing is invoked after abort or cancellation, the same exception object leaves the call, the coroutine never suspends again.",
-   note="max_attempts 3 (4 thorough); 1 injection per run; async also as Tasks on a virtual event loop with attempt_timeout_s; abort also as an environment flag or a falsy callable token; cancellation classes that also derive from Exception"),
+   note="max_attempts 3 (4 thorough); 1 injection per run; async also as Tasks on a virtual event loop with attempt_timeout_s; abort also as an environment flag or a falsy callable token; cancellation classes that also derive from Exception; cancellation requested during an attempt (delivered at the backoff sleep, also a zero-length one through the default sleeper); event-like and optional-parameter predicates; predicates that raise"),
  "C14": dict(engine="E1 seq", cat="model_checking", ref="6 C14",
    technique="exhaustive outcome sequences x deviation-bounded stop reasons with all three sinks attached; stream-shape and tag oracle; breaker events checked against the spy breaker's return values",
    text="Metric hook, log hook and timeline (captured or supplied) must receive the same sequence retry* terminal, the i-th retry with attempt=i and the applied delay, the terminal event matching the delivered stop reason and describing the final failure; every event returned by the breaker is emitted exactly once with attempt 0 and the breaker's state.",
@@ -60,7 +60,7 @@ CHECKS.update({
  "C15": dict(engine="E1 seq (differential)", cat="fault_enumeration", ref="6 C15",
    technique="exhaustive hook-fault injection (hook x exception type x invocation index / always) replayed against the silent run of the same answer script; normalised-trace equality",
    text="For every baseline run and each of on_metric, on_log, before_sleep: raise at each single invocation index and always, for 7 exception types; the faulty run must equal the silent run in invocations, sleeps, delivered result, breaker and budget updates and in what the other hook and the timeline received.",
-   note="hooks raise subclasses of Exception; one faulty hook per run (two thorough); hooks supplied as bound methods, functools.partial, callable objects, and by attribute assignment"),
+   note="hooks raise subclasses of Exception; one faulty hook per run (two thorough); hooks supplied as bound methods, functools.partial, callable objects, and by attribute assignment; hooks failing at the call boundary (C callable, wrong arity); warnings turned into errors"),
 
  "C06": dict(engine="E2 state + E1 seq", cat="model_checking", ref="6 C06",
    technique="explicit-state BFS over operation histories of the real CircuitBreaker with canonical-state deduplication, compared transition by transition with a list-of-failures reference model (subset construction over boundary conventions)",
